@@ -11,7 +11,13 @@ MANIFEST_ENTRY = {
     "category": "proof",
     "text": "Lean 4 theorems over an executable model of drift.py's initial geometry (np.linspace, initial knot placement, "
             "transform_rows for 1..4 knots with interp1d quadratic/cubic in Lagrange form, the bilinear splat of bilinear_kde with "
-            "wrap indexing, the align_translation loop with running-mean reference, mean removal and knot update): every pixel "
+            "wrap indexing, the align_translation loop with running-mean reference, mean removal and knot update) and — new in round 5 — "
+            "over a state machine of one DriftCorrection object (Model/DriftSession.lean: assignment to scan_direction_degrees, "
+            "preprocess with every branch of validate_pad_value, the float()/int() conversions of the setters in code order, the "
+            "number_knots >= 1 check, the canvas from images[0]/images[1], the late failures [empty canvas, sigma=inf]; align_translation "
+            "with its implicit default preprocess, wrong-typed registration arguments, an exception raised by a callee inside the loop, "
+            "the min_image_shift rule as written; align_affine with the num_tests parity check, candidate drift vectors, failures inside "
+            "the search loop, the committed shear and its two nested align_translation calls): every pixel "
             "(r,c) is placed at canvas centre + (c-(W-1)/2)·fast + (r-(H-1)/2)·slow for every H, W, canvas, scan vectors and knot "
             "count 1..4; interp1d through 2/3/4 knots (Lagrange form) reproduces every polynomial of degree <= k-1 and knot-count "
             "independence is derived from that; the four splat weights of a point are >= 0, add up to exactly 1 over the canvas "
@@ -22,29 +28,60 @@ MANIFEST_ENTRY = {
             "code's own FFT formulas is such a routine for every upsampling factor and positive max_image_shift whenever the canvas "
             "image has a unique positive correlation peak, at least 3x3 pixels and non-zero lowest Fourier coefficients on both "
             "axes (no correlation-theorem or strict-patch hypothesis left; concrete 3x3 witness). "
-            "Tied to the code on every run by float64 differential runs of preprocess/transform_coordinates/align_translation "
-            "and an exact (dyadic-coordinate) differential run of bilinear_kde; inputs are drawn over memory layouts (C/Fortran/"
+            "HISTORIES (round 5, every carrier incl. the executed Float instance): for EVERY sequence of public calls starting at from_data in which no "
+            "alignment call has succeeded — calls that are rejected or raise part-way may occur anywhere, any number of times — the knots of "
+            "every image are exactly the ones preprocess places (pristine_before_any_drift_estimate), hence the placement formula holds "
+            "(placement_after_any_history_without_drift, images of different shapes in one stack included); a call that raises leaves the "
+            "geometry unchanged or freshly re-made (raising_call_keeps_or_resets_geometry); a raising align_translation / align_affine on an "
+            "object with knots returns exactly the previous state (raising_alignment_call_is_atomic); preprocess depends on the object only "
+            "through image shapes and CURRENT scan directions (preprocess_forgets_history); align_translation moves every pixel by exactly "
+            "the applied shift for 1..4 arbitrary knots (translation_moves_every_pixel_by_the_shift; shear analogue for align_affine), the "
+            "applied shifts add up to zero, zero measured shifts return the state bit for bit for any min_image_shift "
+            "(zero_shifts_leave_geometry_unchanged, identical_stack_fixed_point_of_the_call); validate_pad_value accepts exactly the four "
+            "statistic names, numbers in [0,1] and number lists of one entry per image. "
+            "Tied to the code on every run by float64 differential runs of preprocess/transform_coordinates/align_translation, "
+            "an exact (dyadic-coordinate) differential run of bilinear_kde, and a LOCKSTEP run of call histories on one real object against the "
+            "state machine (outcome class ok/ValueError/TypeError/IndexError/OverflowError/injected fault, canvas, knots and per-pixel coordinates "
+            "after every call, attributes after every successful call), next to a twin object that only receives the calls that succeeded "
+            "(bit-for-bit equality after every call); inputs are drawn over memory layouts (C/Fortran/"
             "transposed/strided/negative-stride, mixed in one stack), dtypes, list vs 3-D containers, keyword and positional call forms "
-            "(parameter order pinned) and call histories on one object including rejected calls.",
+            "(parameter order pinned), argument forms (int/float/bool/NumPy scalar/numeric string/NaN/inf/None/garbage) and call histories "
+            "including rejected calls, wrong-typed callee arguments and exceptions (RuntimeError, KeyboardInterrupt) injected into the k-th "
+            "cross_correlation_shift call of align_translation / align_affine.",
     "note": "Trusted: Lean kernel + propext/Classical.choice/Quot.sound; scipy.interpolate.interp1d (quadratic/cubic through "
             "3/4 points = the interpolating polynomial) is modelled and measured; scipy.ndimage.gaussian_filter is modelled as a "
-            "separable correlation with a symmetric normalised kernel and reflect boundary (conservation now proved for that model, "
-            "still measured on scipy itself); float32 accumulation of the weight map. Moved from assumed to proved in round 2: "
-            "the correlation theorem (hypothesis hcc) and the strict patch maximum (hypothesis hstrict) of the fixed-point theorem, "
-            "both discharged from C13 (identical_stack_fixed_point_fft, identical_stack_fixed_point_of_axis_coeffs).",
-    "technique": "Lean 4 proof (field identities for Lagrange interpolation of affine data, finite case analysis of wrap indexing, induction over the image list) + model-vs-implementation correspondence",
+            "separable correlation with a symmetric normalised kernel and reflect boundary (conservation proved for that model, "
+            "still measured on scipy itself); float32 accumulation of the weight map. In the state machine what the registration MEASURES "
+            "(raw shifts, index of the cheapest affine candidate) is a parameter of the op: the lockstep run feeds it the shifts C13's model "
+            "measures on the real warped stack; a successful align_affine / align_nonrigid is followed on the twin only (not on the model). "
+            "Still measured only: Gaussian-filter conservation on scipy, interp1d = Lagrange polynomial, float32 noise of the fixed point, "
+            "align_nonrigid (only its raising calls are exercised, against the twin), generate_corrected_image (outside the property). "
+            "Exact correlation ties (canvas invariant under a circular shift, e.g. constant along a 2-pixel-wide axis) are rejected by the "
+            "generators: the shift is not determined by the data there (hypothesis UniquePeak of the fixed-point theorems).",
+    "technique": "Lean 4 proof (field identities for Lagrange interpolation of affine data, finite case analysis of wrap indexing, induction over the image list, invariant over every history of a state machine incl. raising calls) + model-vs-implementation correspondence (differential, exact, and lockstep call histories with fault injection and a twin object)",
 }
 RULE = ("a case is one preprocess configuration (shape, per-image scan angles, pad fraction, knot count, pad_value kind, kde sigma), "
-        "one bilinear_kde call, one align_translation run, or one history of preprocess() calls with changed configuration on a single object; distinct non-trivial = distinct (stream, shape parity/squareness, knot "
-        "count, angle class [axis-aligned/oblique], pad fraction, stack size, upsample factor) with H*W > 1")
+        "one bilinear_kde call, one align_translation run, one history of preprocess() calls with changed configuration on a single object, or one session "
+        "(history of set-angles / preprocess / align_translation / align_affine / align_nonrigid calls incl. rejected and raising ones on one object, in lockstep "
+        "with the state machine and a twin); distinct non-trivial = distinct (stream, shape parity/squareness, knot "
+        "count, angle class [axis-aligned/oblique], pad fraction, stack size, upsample factor) with H*W > 1; for sessions distinct (stack size, mixed shapes, "
+        "identical, set of (op, reason) kinds, final knot count)")
 TRUSTED = ["scipy.interpolate.interp1d(kind='quadratic'/'cubic') on exactly 3/4 points evaluates the interpolating polynomial",
            "scipy.ndimage.gaussian_filter(mode='reflect') conserves the array sum (measured by the weight-sum predicate)",
-           "np.ravel_multi_index(mode='wrap'), np.bincount, np.linspace, np.round (half to even)"]
+           "np.ravel_multi_index(mode='wrap'), np.bincount, np.linspace, np.round (half to even)",
+           "Python float()/int() conversion rules, numbers.Number / isinstance classes of the pad_value forms (modelled in NumArg / PadArg, sampled by the session stream)",
+           "the fault-injection wrapper replaces quantem.imaging.drift.cross_correlation_shift (the name the module calls); if a rewrite calls it through another name the fault "
+           "does not fire, the call succeeds and is treated as a successful call (no alarm, no exception-safety verdict for that call)"]
 ASSUMPTIONS = ["pad fractions whose n*(1+pad)/2 is within 1e-6 of (but not exactly on) a rounding tie of np.round are rejected; exact ties (dyadic pad fractions) are kept",
                "weight sums are compared at float32 accuracy (the library accumulates pix_count in float32)",
                "the fixed-point clause and the align_translation correspondence are evaluated at the float32 tolerance 5e-4 px: the "
                "library stores the warped canvases as float32 and np.fft.fft2 (NumPy >= 2) keeps them complex64, so the measured "
-               "shift of an identical stack is float32 noise (observed <= 3e-6 px), not exactly 0"]
+               "shift of an identical stack is float32 noise (observed <= 3e-6 px), not exactly 0",
+               "canvases whose circular autocorrelation has no strict maximum at zero shift (invariant under a circular shift) are rejected from the fixed-point clause and from "
+               "the registration correspondence: exact argmax tie",
+               "session histories keep len(scan_direction_degrees) = number of images and pad_fraction > -1 (shorter angle lists / negative canvases are not modelled)",
+               "after a successful align_affine / align_nonrigid the model is not compared until the next preprocess (what the search measured is not replayed on the model)",
+               "a min_image_shift within 1e-2 px of the measured shift norm is not replayed on the model (the `<` test would be decided by float noise)"]
 EXPLANATION = ("Theorems in Props/C15.lean are about Model/Drift.lean; every run drives the real drift code and the model with the "
                "same configurations and compares canvas shapes, knots, coordinates, raw weight maps and measured shifts.")
 
@@ -358,6 +395,20 @@ def gen_splat(rng):
             "positional": rng.chance(0.4)}
 
 
+def unique_peak(img):
+    """the circular autocorrelation of a canvas has a strict maximum at zero shift (hypothesis `UniquePeak` of the
+    fixed-point theorems).  It fails exactly when the canvas is invariant under a circular shift — e.g. constant along a
+    2-pixel-wide axis — and then the shift along that axis is not determined by the data: an exact argmax tie."""
+    a = np.asarray(img, dtype=np.float64)
+    if a.size == 0 or not np.all(np.isfinite(a)):
+        return False
+    F = np.fft.fft2(a)
+    cc = np.real(np.fft.ifft2(F * np.conj(F)))
+    c0 = cc[0, 0]
+    cc[0, 0] = -np.inf
+    return bool(c0 - cc.max() > 1e-6 * max(abs(c0), 1e-30)) if cc.size > 1 else True
+
+
 def case_align(ctx, drv, case):
     """preprocess -> align_translation on a stack; identical stacks must be a fixed point; measured
     shifts (knot displacement) vs the model's alignment loop run on the real warped images"""
@@ -385,6 +436,9 @@ def case_align(ctx, drv, case):
         ctx.dist["align:mixed memory layouts / dtypes in the stack"] += 1
     k0 = [np.array(k, dtype=float, copy=True) for k in dc.knots]
     warped = [np.asarray(a, dtype=np.float64).copy() for a in dc.images_warped.array]
+    if not all(unique_peak(w) for w in warped):
+        ctx.dist["align:rejected(canvas invariant under a circular shift: exact correlation tie)"] += 1
+        return
     with contextlib.redirect_stdout(io.StringIO()):
         if case.get("positional"):   # (upsample_factor, min_image_shift, max_image_shift, show_merged)
             dc.align_translation(up, None, case["max_shift"], False)
@@ -578,6 +632,7 @@ def case_rehist(ctx, case):
                               observed={"max_diff_px": d}, required="identical coordinates for 1..4 knots")
     # ---- further use after the history: translation alignment on the object and on its twin
     k0 = [np.array(k, dtype=float, copy=True) for k in dc.knots]
+    tied = not all(unique_peak(w) for w in dc.images_warped.array)
     with contextlib.redirect_stdout(io.StringIO()):
         for o in (dc, twin):
             o.align_translation(upsample_factor=case.get("up", 1), show_merged=False)
@@ -585,10 +640,11 @@ def case_rehist(ctx, case):
     if not same:
         ctx.pred_fail("rehist-align-differs-from-twin", "align_translation after a history with rejected preprocess() calls differs from the twin "
                       "object on which the rejected calls were never made", case, observed=why, required="identical knots / warped stack")
-    degenerate = any(not np.all(np.isfinite(np.asarray(k))) for k in twin.knots)
+    degenerate = tied or any(not np.all(np.isfinite(np.asarray(k))) for k in twin.knots)
     if degenerate:
-        # a 2-pixel-wide canvas with a flat correlation along that axis: the parabola is 0/0 on the twin as well
-        ctx.dist["rehist:degenerate correlation (NaN shift on the twin too)"] += 1
+        # e.g. a 2-pixel-wide canvas with a flat correlation along that axis: the shift along it is not determined by the
+        # data (exact argmax tie; hypothesis UniquePeak of the fixed-point theorems fails)
+        ctx.dist["rehist:degenerate correlation (canvas invariant under a circular shift / NaN shift on the twin too)"] += 1
     wsum = [float(np.sum(np.asarray(w, dtype=np.float64))) for w in dc.weights_warped.array]
     if not degenerate and any(abs(v - H * W) / (H * W) > 1e-4 for v in wsum):
         ctx.pred_fail("rehist-weight-sum", "weight map after the history does not sum to the number of image pixels", case, observed=wsum, required=H * W)
